@@ -206,6 +206,7 @@ type Exec struct {
 	Fail       bool
 	Metrics    string
 	Patch      string
+	Signal     string // real-process mode: the hook process ends by sending itself this signal (KILL, TERM, SEGV) after writing its outputs
 	PatchObj   string // name of the object the patch writes (opsim runs with patches), for fault attribution
 	Admission  string
 	Conversion string
@@ -389,7 +390,11 @@ cp "$BINDING_CONTEXT_PATH" "$rep.ctx"
 [ -f "$ctl/$key.out.patch" ] && cat "$ctl/$key.out.patch" > "$KUBERNETES_PATCH_PATH"
 [ -f "$ctl/$key.out.admission" ] && cat "$ctl/$key.out.admission" > "$VALIDATING_RESPONSE_PATH"
 [ -f "$ctl/$key.out.conversion" ] && cat "$ctl/$key.out.conversion" > "$CONVERSION_RESPONSE_PATH"
-exit $(cat "$ctl/$key.exit")
+ex=$(cat "$ctl/$key.exit")
+case "$ex" in
+  KILL|TERM|SEGV) kill -$ex $$; sleep 2 ;;
+esac
+exit $ex
 `
 
 func hookKey(rel string) string { return strings.ReplaceAll(rel, "/", "__") }
@@ -517,7 +522,11 @@ func (o *OpSim) stub(cmd *exec.Cmd, op string) ([]byte, error) {
 		ctl(".out.patch", x.Patch)
 		ctl(".out.admission", x.Admission)
 		ctl(".out.conversion", x.Conversion)
-		ctl(".exit", fmt.Sprint(x.ExitCode))
+		if x.Signal != "" {
+			ctl(".exit", x.Signal)
+		} else {
+			ctl(".exit", fmt.Sprint(x.ExitCode))
+		}
 		realErr = cmd.Run()
 		x.Report = map[string]string{}
 		if data, err := os.ReadFile(filepath.Join(o.CtlDir, fmt.Sprintf("%s.report.%d", key, x.N))); err == nil {
